@@ -309,6 +309,9 @@ def run_path(E, contract, fn, res):
             E.assume(c)
     argv = [args[p] for p in contract.params]
     outcome = None
+    wf = getattr(contract, "witness", None)
+    if wf is not None:
+        E.witness_fn = lambda model: wf(E, ctx, model)
     E.depth = 0
     try:
         if contract.body_model is not None:
